@@ -2135,6 +2135,11 @@ func (c *BytecodeCompiler) compileContinueExpressionNode(node *ast.ContinueExpre
 		return
 	}
 
+	if c.additionalAbortChecks {
+		// `continue` jumps over the abort check emitted at the end of the loop body
+		c.emit(location.StartPos.Line, bytecode.CHECK_ABORT)
+	}
+
 	if !loop.returnsValueFromLastIteration {
 		if node.Value != nil {
 			c.compileNode(node.Value, false)
